@@ -15,6 +15,7 @@ RULE = (
     "unmatched predictions in {254..257, 65534..65537}, labels at the dtype maximum, for uint8/16/32/64) + semantic input "
     "through evaluate() where the approximator picks the smallest dtype. Non-trivial = at least one unmatched prediction or "
     "one matched pair; distinct = hash of (arrays, dtype, matcher)."
+    ' Further families: label values beyond 2^24 / 2^25, also shared between the two sides in another order; widening cases as 2-D Fortran / transposed / strided views; sparse volumes beyond 2^18 / 2^20 / 2^22 voxels incl. a prediction without background whose rest instance carries a reference label.'
 )
 ASSUMPTIONS = ["the label map of a match_instances call is the one returned by the _match_instances call inside it"]
 MINIMUM = {"C04.checked": 1500, "f:C04.fresh_past_255": 20, "f:C04.fresh_past_65535": 4}
